@@ -180,15 +180,21 @@ theorem rename_chain (s : State) (h : Inv s) (a b c : Name) (ha : a ∈ s.elemen
       · rw [if_pos h2] at hxa; exact hca hxa
       · rw [if_neg h2] at hxa; exact h1 hxa.symm
 
-/-- `add` stores exactly the given data and calibration under the new name; nothing else changes -/
-theorem add_entry (s s' : State) (h : Inv s) (n : Name) (ds : List Nat) (c : Nat)
+/-- `add` succeeds only with one array per layer, each of exactly its layer's shape (the code's
+`assert data.shape == self.data.shape`), stores exactly the given data and calibration under the new
+name, and leaves every layer's shape and everything else as it was -/
+theorem add_entry (s s' : State) (h : Inv s) (n : Name) (ds : List ArrIn) (c : Nat)
     (hs : add s n ds c = some s') :
-    entry s' n = some (ds, c) ∧ ∀ k, k ≠ n → entry s' k = entry s k := by
+    ds.map (·.1) = s.layers.map (·.shape) ∧ s'.layers.map (·.shape) = s.layers.map (·.shape) ∧
+    entry s' n = some (ds.map (·.2), c) ∧ ∀ k, k ≠ n → entry s' k = entry s k := by
   have hr := add_refines h n ds c
   rw [hs] at hr
-  obtain ⟨hn, hlen, _⟩ := add_eq_some h hs
+  obtain ⟨hn, hsh, hs'⟩ := add_eq_some h hs
+  refine ⟨hsh, ?_, ?_⟩
+  · rw [hs']
+    exact map_zipWith_left (·.shape) (Layer.addField n) s.layers ds (shapes_length hsh) (fun _ _ _ => rfl)
   simp only [Option.map_some, Spec.add] at hr
-  rw [if_pos ⟨by rw [abs_map_keys]; exact hn, by rw [abs_shapes_length]; exact hlen⟩] at hr
+  rw [if_pos ⟨by rw [abs_map_keys]; exact hn, hsh⟩] at hr
   simp only [Option.some.injEq] at hr
   unfold entry
   rw [hr]
@@ -348,7 +354,7 @@ example : Inv exSRR ∧ KindOK exSRR := by decide
 /-- swap, 3-cycle, remove, chain onto the freed name, add, reads and a caller edit: all succeed -/
 example : (run exState [.callerEdit, .rename [("A", "B"), ("B", "A")],
     .rename [("A", "B"), ("B", "C"), ("C", "A")], .get 0 none true, .remove ["C"],
-    .rename [("A", "B"), ("B", "C")], .add "A" [7] 3, .get 0 (some "A") true]).isSome = true := by decide
+    .rename [("A", "B"), ("B", "C")], .add "A" [([2, 3], 7)] 3, .get 0 (some "A") true]).isSome = true := by decide
 example : (rename exState [("A", "B"), ("B", "A")]).map (fun s => (s.elements, s.cal))
     = some (["B", "A", "C"], [("B", 2), ("A", 0), ("C", 1)]) := by decide
 example : (rename exSRR [("A", "B"), ("B", "C"), ("C", "A")]).map (fun s => entry s "A")
@@ -357,9 +363,10 @@ example : "A" ∈ exState.elements ∧ "B" ∈ exState.elements ∧ "A" ≠ "B" 
 example : (roundTrip exSRR).isSome = true := by decide
 example : read exState 0 none true = some [("A", 1, some 2), ("B", 3, some 0), ("C", 5, some 1)] ∧
     read exSRR 1 (some "B") false = some [("B", 9, none)] := by decide
-example : (add exState "D" [9] 4).isSome = true ∧ (remove exState ["B", "A"]).isSome = true := by decide
+example : (add exState "D" [([2, 3], 9)] 4).isSome = true ∧ (remove exState ["B", "A"]).isSome = true := by decide
 /-- the success conditions are real: duplicates, absent names and collisions are rejected -/
-example : add exState "A" [9] 4 = none ∧ remove exState ["D"] = none ∧ remove exState ["A", "A"] = none ∧
+example : add exState "A" [([2, 3], 9)] 4 = none ∧ add exState "D" [([3], 9)] 4 = none ∧
+    add exState "D" [([2, 3], 9), ([2, 3], 11)] 4 = none ∧ remove exState ["D"] = none ∧ remove exState ["A", "A"] = none ∧
     rename exState [("A", "B")] = none ∧ rename exState [("A", "D"), ("B", "D")] = none := by decide
 
 end Pew.LaserEdit
